@@ -138,6 +138,10 @@ func buildRequest(c c19case) *http.Request {
 		q = "?dryRun=true&preview=true"
 	case "dry-run-yes":
 		q = "?dryRun=yes&preview=1"
+	case "dry-run-only": // the v2 name alone (on v1 routes it means nothing)
+		q = "?dryRun=true"
+	case "preview-only": // the v1 name alone (on v2 routes it means nothing)
+		q = "?preview=true"
 	case "force-query":
 		q = "?force=true&continueOnFailure=true"
 	case "trailing-slash":
